@@ -221,6 +221,74 @@ def check(facts, rep, tier, cfg):
                         else:
                             rep.bad("C17.R1", "native/%s" % c["name"], w, "%s is not driven by tls_skip_verify" % c["name"])
                 rep.floor("C17.R1", "native-tls danger switches", n, 2)
+    if native_on:
+        # ---- R10 the native-tls backend cannot verify client certificates: a configured client CA is refused, never ignored
+        rep.rule("C17.R10", "native-tls sibling: every server-identity constructor of the native backend that is given a client CA path refuses "
+                            "`Some(path)` (UnsupportedFeature) on every path - directly or in the helper it hands the path to; an ignored client CA "
+                            "would admit clients without a certificate although the operator required one")
+        from an import nested_bodies as _nb
+        nat = [b for b in crate.bodies if "tls::native::" in b.path and b.kind == "Fn" and "::tests::" not in b.path]
+
+        def refuses(fn, pname, depth=0):
+            """Some(client CA) never reaches a successful return of logical function `fn` (parameter / captured variable `pname`)."""
+            for b in _nb(facts, fn):
+                tr_ = Tracer(facts, b)
+                for gb in range(len(b.blocks)):
+                    if b.term(gb)["k"] != "SwitchInt":
+                        continue
+                    g = guard_at(facts, b, tr_, gb)
+                    if g is None or not upvar_named(b, g.pred, pname):
+                        continue
+                    p_ = strip(g.pred)
+                    for succ, v in g.edges:
+                        some = (g.kind == "discr" and v == "Some") or \
+                               (g.kind == "bool" and p_.kind == "call" and p_[6] in ("is_some", "is_none") and v == (p_[6] == "is_some"))
+                        if not some:
+                            continue
+                        reach = b.reachable_from(succ)
+                        oks = [x for x in reach for st in b.blocks[x]["stmts"] if st["k"] == "Assign" and st["lhs"]["l"] == 0 and
+                               not st["lhs"].get("p") and st["rv"]["k"] == "Aggregate" and st["rv"]["agg"].get("variant") == "Ok"]
+                        more = [x for x in reach if b.term(x)["k"] == "Call" and callee(b.term(x)) and "tls::native::" in callee(b.term(x))["path"]]
+                        if not oks and not more:
+                            return True
+                if depth < 3:
+                    rets = [r for r in range(len(b.blocks)) if b.term(r)["k"] == "Return"]
+                    for bi, t in b.calls():
+                        c = callee(t)
+                        if not c or "tls::native::" not in c["path"]:
+                            continue
+                        cb = [x for x in nat if c["path"].split("::<")[0].endswith(x.path)]
+                        if not cb:
+                            continue
+                        for k, a in enumerate(t["args"]):
+                            if upvar_named(b, tr_.operand(a), pname) and k < cb[0].argc:
+                                # every successful return of this body passes through the call
+                                if refuses(cb[0], cb[0].local_name(k + 1), depth + 1) and \
+                                        not any(r in b.reachable_from(0, cut={bi}) and _ok_ret(b, r, bi) for r in rets):
+                                    return True
+            return False
+
+        def _ok_ret(b, r, cut_bi):
+            """A return reachable without the call that can carry Ok."""
+            reach = b.reachable_from(0, cut={cut_bi})
+            return any(st["k"] == "Assign" and st["lhs"]["l"] == 0 and not st["lhs"].get("p") and st["rv"]["k"] == "Aggregate" and
+                       st["rv"]["agg"].get("variant") == "Ok" for x in reach for st in b.blocks[x]["stmts"])
+        n10 = 0
+        for b in nat:
+            names = [b.local_name(i) for i in range(1, b.argc + 1) if "client_ca" in (b.local_name(i) or "").lower()]
+            if not names or "make_server" not in b.name and "Acceptor" not in b.locals[0]["s"] and "TlsIdentity" not in b.locals[0]["s"]:
+                continue
+            for pname in names:
+                n10 += 1
+                rep.analysed(b)
+                w10 = "%s (%s)" % (loc_str(b.loc), b.path)
+                if refuses(b, pname):
+                    rep.ok("C17.R10", "native/client-ca-refused/%s" % b.path, w10, "Some(client CA) -> UnsupportedFeature")
+                else:
+                    rep.bad("C17.R10", "native/client-ca-refused/%s" % b.path, w10,
+                            "this constructor of the native-tls server identity takes a client CA path (`%s`) but can succeed with `Some(path)`: "
+                            "the backend cannot verify client certificates, so the server would accept clients that present none" % pname)
+        rep.floor("C17.R10", "native-tls server-identity constructors taking a client CA", n10, 2)
     # ---- R2 loader
     rep.rule("C17.R2", "custom CA => only certificates from that path; system/bundled roots only without a custom CA")
     if rustls_on:
